@@ -19,7 +19,9 @@ RULE = (
     "history = an audit (1-3 contests of any kind, CARD_COMPARISON / ONEAUDIT, style-based sampling, 4..30 cards with styles, "
     "phantoms, pooled batches, hidden MVR per card, distinct sample numbers) followed by 1..8 rounds; each round raises every "
     "contest's sample size by a generated increment >= 0 and draws with the redraw or the continue variant, then runs the "
-    "documented pipeline (consistent_sampling -> selection order -> prep_comparison_sample -> set_p_values). Invariants after "
+    "documented pipeline (consistent_sampling -> selection order -> prep_comparison_sample -> set_p_values); a quarter of the "
+    "histories start with a rehearsal draw under other numbers on the same list object, a fifth of the rounds first sort the "
+    "list in place by sample number. Invariants after "
     "every round: no card twice; selected contains the previous selection; every assertion's data sequence has the previous "
     "one as a prefix; p-value non-increasing; confirmed stays confirmed. Non-trivial = >=2 rounds with a strict increase and "
     ">=2 contests with different styles. distinct = canonical JSON of the history."
@@ -28,6 +30,7 @@ ASSUMPTIONS = [
     "style-based comparison audits only: polling / no-style samples are drawn by sample_from_manifest, not by consistent sampling",
     "sample sizes never exceed the cards listing the contest; margins positive (other audits are not started)",
     "MVRs of a card never change between rounds",
+    "after an in-place sort the caller re-reads the positions of the cards already selected (positions change, cards do not)",
 ]
 
 
@@ -72,6 +75,17 @@ class Exec:
                 if any(c.pool and np.isnan(means.get(c.tally_pool, 0.0)) for c in cvrs):
                     out.skip("audit-not-started(nan-pool-mean)")
                     return
+        if init.get("rehearsal"):
+            # a dress rehearsal on the same list of records under other (test) numbers, before the real numbers exist
+            from shangrla.core.Audit import CVR
+            for c, s in zip(cvrs, init["rehearsal"]):
+                c.sample_num = s
+            for cid, con in contests.items():
+                con.sample_size = min(2, sum(1 for c in cvrs if c.has_contest(cid)))
+            CVR.consistent_sampling(cvrs, contests)
+            for con in contests.values():
+                con.sample_size = 0
+            out.cls("rehearsal-draw-first")
         for c, s in zip(cvrs, init["sample_nums"]):
             c.sample_num = s
         self.audit, self.contests, self.cvrs, self.mvrs = audit, contests, cvrs, mvrs
@@ -100,6 +114,21 @@ class Exec:
         self.sizes = new
         for cid, con in self.contests.items():
             con.sample_size = new[cid]
+        if rnd.get("sort_first"):
+            # the list of records is put into sample-number order in place (CVR.sort_cvr_sample_num); positions change,
+            # cards do not: the caller re-reads the positions of the cards already selected
+            held = [self.cvrs[i] for i in self.prev_idx]
+            pair = {id(c): m for c, m in zip(self.cvrs, self.mvrs)}
+            try:
+                CVR.sort_cvr_sample_num(self.cvrs)
+            except Exception as e:  # noqa
+                out.lib_exception("sort_cvr_sample_num", e)
+                self.ok = False
+                return
+            self.mvrs = [pair[id(c)] for c in self.cvrs]
+            pos = {id(c): i for i, c in enumerate(self.cvrs)}
+            self.prev_idx = [pos[id(c)] for c in held]
+            out.cls("list-sorted-in-place-between-rounds")
         variant = rnd["variant"] if self.prev_idx else "redraw"
         try:
             if variant == "continue":
@@ -171,7 +200,8 @@ def _init_strategy():
         n = len(scn["cards"])
         first = draw(st.sampled_from([1, 1, 0]))   # numbering from 1, or from 0 (the first card's number is then 0)
         nums = [int(v) for v in draw(st.permutations(list(range(first, n + first))))]
-        return {"scn": scn, "sample_nums": nums}
+        rehearsal = [int(v) for v in draw(st.permutations(list(range(1, n + 1))))] if draw(st.integers(0, 3)) == 0 else None
+        return {"scn": scn, "sample_nums": nums, "rehearsal": rehearsal}
 
     return init()
 
@@ -214,13 +244,14 @@ def machine(shard):
                 self.out.nontrivial = bool(self.ex and self.ex.nontrivial())
                 core.current_state().record(self.case, self.out, known)
 
-        @rule(variant=st.sampled_from(variants), incs=st.lists(st.integers(0, 4), min_size=3, max_size=3), big=st.booleans())
-        def audit_round(self, variant, incs, big):
+        @rule(variant=st.sampled_from(variants), incs=st.lists(st.integers(0, 4), min_size=3, max_size=3), big=st.booleans(),
+              sort_first=st.sampled_from([False, False, False, False, True]))
+        def audit_round(self, variant, incs, big, sort_first):
             if self.ex is None or not self.ex.ok:
                 return  # audit never started (non-positive margin ...) or already failed: nothing to escalate
             cids = sorted(self.ex.contests)
             inc = {cid: incs[i % 3] * (3 if big else 1) for i, cid in enumerate(cids)}
-            rnd = {"variant": variant, "inc": inc}
+            rnd = {"variant": variant, "inc": inc, "sort_first": sort_first}
             self.case["rounds"].append(rnd)
             self._guard(lambda: self.ex.step(rnd))
             self._flush()
